@@ -1011,3 +1011,37 @@ pub fn repo_seed_texts() -> Vec<String> {
     }
     v
 }
+
+
+impl Ctx {
+    /// Second shrinking pass for a failure of sub-check `sub`: `shrink` maps the failing case to a smaller
+    /// failing case (it is given a predicate that re-runs the oracle quietly).
+    pub fn reshrink<C, O, S>(&mut self, sub: &str, oracle: O, shrink: S)
+    where
+        C: Serialize + DeserializeOwned,
+        O: Fn(&C, &mut Obs) -> Verdict,
+        S: Fn(&C, &dyn Fn(&C) -> bool) -> C,
+    {
+        let Some(f) = &self.failure else { return };
+        if f.sub != sub || f.broken {
+            return;
+        }
+        let Ok(case) = serde_json::from_value::<C>(f.case.clone()) else { return };
+        let quiet = |c: &C| -> Verdict {
+            let mut st = Stats::new();
+            let mut o = Obs { st: &mut st, frozen: true };
+            match std::panic::catch_unwind(std::panic::AssertUnwindSafe(|| oracle(c, &mut o))) {
+                Ok(v) => v,
+                Err(_) => Verdict::Pass,
+            }
+        };
+        if !quiet(&case).is_fail() {
+            return;
+        }
+        let small = shrink(&case, &|c: &C| quiet(c).is_fail());
+        if let Verdict::Fail(m) = quiet(&small) {
+            let tape = None;
+            self.failure = Some(Failure { broken: false, sub: sub.to_string(), case: serde_json::to_value(&small).unwrap_or(Value::Null), tape, message: m });
+        }
+    }
+}
